@@ -106,7 +106,93 @@ def run(tier, seed):
         if marr.shape != out.shape or not np.allclose(marr, out, rtol=1e-12, atol=1e-13, equal_nan=True):
             sg.disagree(stim, marr.tolist(), out.tolist(), "generate differs from the model's image of the same draws")
 
-    suites = [st, sg]
+    # ---- mixtures: the density generate() draws from, under every history of the components ------
+    sx = Suite("C14.mixture", "Mixture of Normal (3 encodings) / Laplace components: misfit() vs the textbook mixture density -log sum_i p_i pdf_i(x) (scipy), where the "
+               "components are fresh, already normalised (1-3 calls), shared between two mixtures, or re-used after the mixture was built; afterwards every component's own "
+               "misfit vs its textbook density; 1e-9; non-trivial = >= 2 components with different histories")
+    def logpdf(desc, x):
+        if desc["kind"] == "laplace":
+            return float(np.sum(stats.laplace.logpdf(x.ravel(), loc=np.array(desc["mu"]), scale=np.array(desc["b"]))))
+        if "var" in desc:
+            return float(np.sum(stats.norm.logpdf(x.ravel(), loc=np.array(desc["mu"]), scale=np.sqrt(np.array(desc["var"])))))
+        return float(stats.multivariate_normal.logpdf(x.ravel(), mean=np.array(desc["mu"]), cov=np.array(desc["cov"])))
+    for _ in range(240 if thorough else 80):
+        d = rnd.choice([1, 2, 3])
+        k = rnd.choice([1, 2, 3])
+        hist = [rnd.choice(["fresh", "prenormalised", "shared"]) for _ in range(k)]
+        comps = [distgen.leaf(rnd, d, normalized=(h != "fresh"), allow=("normaldiag", "normalscalar", "normaldiagmatrix", "normalfull", "laplace"), bounds_p=0.0) for h in hist]
+        w = np.array([rnd.uniform(0.2, 1.0) for _ in range(k)])
+        w = w / w.sum()
+        with np.errstate(all="ignore"), quiet():
+            for c, h in zip(comps, hist):
+                if h == "shared":
+                    D.Mixture([c.obj], [1.0])          # an earlier mixture that holds the same object
+            mix = D.Mixture([c.obj for c in comps], list(w))
+            if rnd.random() < 0.3:
+                D.Mixture([c.obj for c in comps][::-1], list(w[::-1]))   # and a later one
+        x = np.array([[rnd.uniform(-3, 3)] for _ in range(d)])
+        with np.errstate(all="ignore"):
+            m = float(mix.misfit(x.copy()))
+            own = [float(c.obj.misfit(x.copy())) for c in comps]
+        lps = [logpdf(c.desc, x) for c in comps]
+        ref = -float(np.log(np.sum(w * np.exp(np.array(lps)))))
+        stim = {"components": [c.desc for c in comps], "histories": hist, "weights": w.tolist(), "x": x.ravel().tolist()}
+        sx.case(stim, nontrivial=(k >= 2 and len(set(hist)) >= 2), sample={"histories": hist, "misfit": m, "neg_log_density": ref} if len(sx.samples) < 3 else None)
+        for h in hist:
+            sx.count(f"history={h}")
+        if not common.close(m, ref, 1e-9, 1e-10):
+            findings.append(Finding("C14", f"Mixture of components with histories {hist}: misfit {m!r} but -log of the mixture density = {ref!r}",
+                                    {"kind": "mixture-density"}, {"oracle": "scipy", "stimulus": stim, "misfit": m, "neg_log_density": ref}))
+        for c, o, lp, h in zip(comps, own, lps, hist):
+            if not common.close(o, -lp, 1e-9, 1e-10):
+                findings.append(Finding("C14", f"{c.desc['kind']} component ({h}) after being placed in a Mixture: misfit {o!r} but -log pdf = {-lp!r}",
+                                        {"kind": "density", "class": c.desc["kind"]}, {"oracle": "scipy", "stimulus": stim, "misfit": o, "neg_log_pdf": -lp}))
+                break
+
+    # ---- histories of one object: the constant it carries --------------------------------------
+    sh = Suite("C14.history", "one Normal/Laplace object through a random history of normalize() / Mixture([obj],[1]) / misfit() calls (length 0-6): "
+               "normalization_constant vs the model's normRun, and misfit vs scipy (-log pdf once normalised, the bare exponent before); "
+               "non-trivial = >= 2 normalising operations in the history")
+    reqs, metas = [], []
+    allow = ("normaldiag", "normalscalar", "normaldiagmatrix", "normalfull", "laplace")
+    for _ in range(400 if thorough else 120):
+        d = rnd.choice([1, 2, 3])
+        state = rnd.getstate()
+        node = distgen.leaf(rnd, d, normalized=False, allow=allow, bounds_p=0.0)
+        r2 = random.Random()
+        r2.setstate(state)
+        flagged = distgen.leaf(r2, d, normalized=True, allow=allow, bounds_p=0.0)      # same parameters; supplies the model term with the flag set
+        ops = [rnd.choice([0, 0, 1, 2, 2]) for _ in range(rnd.choice([0, 1, 2, 3, 4, 6]))]
+        x = np.array([[rnd.uniform(-3, 3)] for _ in range(d)])
+        with np.errstate(all="ignore"), quiet():
+            for o in ops:
+                if o == 0:
+                    node.obj.normalize()
+                elif o == 1:
+                    D.Mixture([node.obj], [1.0])
+                else:
+                    node.obj.misfit(x.copy())
+            const = float(node.obj.normalization_constant)
+            m = float(node.obj.misfit(x.copy()))
+        normalised = any(o != 2 for o in ops)
+        lp = logpdf(node.desc, x)
+        stim = {"distribution": node.desc, "ops": ["normalize", "Mixture([obj])", "misfit"][0:0] + [("normalize", "mixture", "misfit")[o] for o in ops], "x": x.ravel().tolist()}
+        sh.case(stim, nontrivial=sum(1 for o in ops if o != 2) >= 2, sample={"ops": stim["ops"], "constant": const} if len(sh.samples) < 3 else None)
+        sh.count("normalised" if normalised else "never normalised")
+        if normalised and not common.close(m, -lp, 1e-9, 1e-10):
+            findings.append(Finding("C14", f"{node.desc['kind']} after the history {stim['ops']}: misfit {m!r} but -log pdf = {-lp!r}",
+                                    {"kind": "density", "class": node.desc["kind"]}, {"oracle": "scipy", "stimulus": stim, "misfit": m, "neg_log_pdf": -lp}))
+        reqs.append(f"c14.norm {flagged.proto} {len(ops)} {' '.join(map(str, ops))}".rstrip())
+        metas.append((stim, const))
+    for (stim, const), ans in zip(metas, lean_batch(reqs)):
+        if not ans.startswith("ok "):
+            sh.disagree(stim, "model answer", ans, "driver rejected")
+            continue
+        mc = Reader(ans[3:]).flt()
+        if not common.close(mc, const, 1e-9, 1e-10):
+            sh.disagree(stim, mc, const, "normalization_constant differs from the model after this history")
+
+    suites = [st, sh, sx, sg]
     # ---- thorough: large batches vs closed-form moments (supporting) -----------------------------
     if thorough:
         sm = Suite("C14.moments", "large i.i.d. batches of generate() vs closed-form first/second moments (|z| < 6): supporting evidence for 'columns are distributed "
